@@ -266,22 +266,54 @@ def realisable(fdesc):
     return True
 
 
-def build_app(cfg, seed=0, record=None):
-    """real clastic objects for a concrete configuration.  Returns (app_or_None, exception_or_None).
-    `record` (a list) receives (function name, kwargs) for every call at request time."""
+class Boom(Exception):
+    pass
+
+
+def build_app(cfg, seed=0, record=None, beh=None):
+    """real clastic objects for a concrete configuration.  Returns (app_or_None, exception_or_None, info).
+    `record` (a list) receives ('enter', fname, kwargs) / ('leave'|'raise', fname) at request time; `beh` maps a
+    function name to its behaviour (0 pass, 1 raise before next, 2 raise after next, 3 early Response, 4 swallow)."""
     from clastic import Application, Route
     from clastic.middleware import Middleware
     from clastic.decorators import clastic_decorator
     from werkzeug.wrappers import Response
     rnd = random.Random(seed)
-    ns = {'Response': Response, 'REC': record if record is not None else []}
+    ns = {'Response': Response, 'REC': record if record is not None else [], 'BEH': beh if beh is not None else {}, 'Boom': Boom,
+          'CTX': {'ctx': 1}}
 
-    def mkfunc(fname, with_self, body):
-        d = cfg['funcs'][fname]
-        ptext, _ = param_text(d['params'], d['first_next'], with_self)
+    def header(fname, d, with_self, first_next):
+        ptext, _ = param_text(d['params'], first_next, with_self)
         names = [p[0] for p in d['params']]
         cap = ', '.join('%r: %s' % (n, n) for n in names)
-        src = 'def %s(%s):\n    REC.append((%r, {%s}))\n%s\n' % (fname.replace('.', '_'), ptext, fname, cap, body)
+        return ptext, cap
+
+    def mw_src(fname, d, provides_kw):
+        ptext, cap = header(fname, d, True, d['first_next'])
+        return ('def {py}({p}):\n'
+                '    REC.append(("enter", {f!r}, {{{cap}}}))\n'
+                '    b = BEH.get({f!r}, 0)\n'
+                '    if b == 1:\n        REC.append(("raise", {f!r})); raise Boom({f!r})\n'
+                '    if b == 3:\n        REC.append(("leave", {f!r})); return Response("early:" + {f!r})\n'
+                '    try:\n        r = next({kw})\n'
+                '    except Exception:\n'
+                '        if b == 4:\n            REC.append(("leave", {f!r})); return Response("swallow:" + {f!r})\n'
+                '        REC.append(("raise", {f!r})); raise\n'
+                '    if b == 2:\n        REC.append(("raise", {f!r})); raise Boom({f!r})\n'
+                '    REC.append(("leave", {f!r})); return r\n').format(py=fname.replace('.', '_'), p=ptext, f=fname, cap=cap, kw=provides_kw)
+
+    def leaf_src(fname, d, with_self, kind):
+        ptext, cap = header(fname, d, with_self, None)
+        ok = 'CTX' if kind == 'ep' else 'Response("ok")'
+        return ('def {py}({p}):\n'
+                '    REC.append(("enter", {f!r}, {{{cap}}}))\n'
+                '    b = BEH.get({f!r}, 0)\n'
+                '    if b == 1:\n        REC.append(("raise", {f!r})); raise Boom({f!r})\n'
+                '    REC.append(("leave", {f!r}))\n'
+                '    if b == 3:\n        return Response("early:" + {f!r})\n'
+                '    return {ok}\n').format(py=fname.replace('.', '_'), p=ptext, f=fname, cap=cap, ok=ok)
+
+    def define(src, fname):
         exec(src, ns)
         return ns[fname.replace('.', '_')]
 
@@ -291,24 +323,24 @@ def build_app(cfg, seed=0, record=None):
                  'render_provides': tuple(m['render_provides'])}
         for phase, prov in (('request', 'provides'), ('endpoint', 'endpoint_provides'), ('render', 'render_provides')):
             if m[phase]:
-                kw = ', '.join('%s=%r' % (n, 'PROVIDED:%s:%s' % (m['name'], n)) for n in m[prov])
-                body = '    return next(%s)' % kw
-                attrs[phase] = mkfunc(m[phase], True, body)
+                kw = ', '.join('%s=%r' % (n, 'PROVIDED:%s:%s' % (m[phase], n)) for n in m[prov])
+                attrs[phase] = define(mw_src(m[phase], cfg['funcs'][m[phase]], kw), m[phase])
         mw_objs[m['name']] = type('MW_' + m['name'], (Middleware,), attrs)()
     kinds = ['function', 'lambda', 'method', 'callable_object', 'staticmethod', 'classmethod', 'decorated']
     epk = kinds[rnd.randrange(len(kinds))]
     rnk = kinds[rnd.randrange(len(kinds))]
 
-    def wrap_kind(fname, kind, body):
+    def wrap_kind(fname, kind, leafkind):
         d = cfg['funcs'][fname]
         if kind == 'lambda':
+            inner = define(leaf_src(fname + '.impl', d, False, leafkind).replace(repr(fname + '.impl'), repr(fname)), fname + '.impl')
             ptext, _ = param_text(d['params'], None, False)
-            names = [p[0] for p in d['params']]
-            cap = ', '.join('%r: %s' % (n, n) for n in names)
-            expr = body.strip()[len('return '):]
-            return eval('lambda %s: (REC.append((%r, {%s})), %s)[1]' % (ptext, fname, cap, expr), ns)
+            po_sorted = [p for p in d['params'] if p[2] == 'po' and not p[1]] + [p for p in d['params'] if p[2] == 'po' and p[1]]
+            call = ', '.join([p[0] for p in po_sorted] + ['%s=%s' % (p[0], p[0]) for p in d['params'] if p[2] != 'po'])
+            ns['_impl_' + fname] = inner
+            return eval('lambda %s: _impl_%s(%s)' % (ptext, fname, call), ns)
         if kind in ('method', 'callable_object', 'classmethod'):
-            f = mkfunc(fname, True, body)
+            f = define(leaf_src(fname, d, True, leafkind), fname)
             if kind == 'method':
                 return types.MethodType(f, type('Holder', (object,), {})())
             if kind == 'classmethod':
@@ -316,7 +348,7 @@ def build_app(cfg, seed=0, record=None):
                 return cls.m
             cls = type('CallableObj', (object,), {'__call__': f})
             return cls()
-        f = mkfunc(fname, False, body)
+        f = define(leaf_src(fname, d, False, leafkind), fname)
         if kind == 'staticmethod':
             cls = type('HolderS', (object,), {'m': staticmethod(f)})
             return cls.m
@@ -328,18 +360,19 @@ def build_app(cfg, seed=0, record=None):
                 return wrapper
             return deco(f)
         return f
-    ep = wrap_kind('ep', epk, '    return {"ctx": 1}')
-    rn = wrap_kind('rn', rnk, '    return Response("ok")')
+    ep = wrap_kind('ep', epk, 'ep')
+    rn = wrap_kind('rn', rnk, 'rn')
     pattern = ''.join('/<%s>' % n for n in cfg['url']) or '/'
-    res_obj = lambda level, n: 'RESOURCE:%s:%s' % (level, n)
+    info = dict(ep_kind=epk, rn_kind=rnk, pattern=pattern)
     try:
         route = Route(pattern, ep, rn, middlewares=[mw_objs[m['name']] for m in cfg['mws'] if m['level'] == 'route'],
-                      resources=dict((n, res_obj('route', n)) for n in cfg['route_res']))
-        app = Application([route], resources=dict((n, res_obj('app', n)) for n in cfg['app_res']),
+                      resources=dict((n, 'RESOURCE:route:%s' % n) for n in cfg['route_res']))
+        app = Application([route], resources=dict((n, 'RESOURCE:app:%s' % n) for n in cfg['app_res']),
                           middlewares=[mw_objs[m['name']] for m in cfg['mws'] if m['level'] == 'app'])
-        return app, None, dict(ep_kind=epk, rn_kind=rnk, pattern=pattern)
+        info.update(ep=ep, rn=rn, mw_objs=mw_objs)
+        return app, None, info
     except Exception as e:      # noqa
-        return None, e, dict(ep_kind=epk, rn_kind=rnk, pattern=pattern)
+        return None, e, info
 
 
 def cfg_realisable(cfg):
